@@ -35,7 +35,7 @@ def atom_field_cases(rng, n):
         alts = []
         if c in (1, -1):
             alts.append('[%s%s%s%s%s]' % (iso, el, chi, hs, '+' if c > 0 else '-'))
-        if abs(c) in (2, 3):
+        if abs(c) in (2, 3) or (abs(c) >= 10 and abs(c) <= 15):     # a run of signs and the written number are the same charge, also beyond one digit
             alts.append('[%s%s%s%s%s]' % (iso, el, chi, hs, ('+' if c > 0 else '-') * abs(c)))
         if h == 1:
             alts.append('[%s%s%s%s%s]' % (iso, el, chi, 'H1' if hs == 'H' else 'H', cs))
